@@ -260,6 +260,9 @@ func runRT(cfg vsched.Config, sc *RTScn, twice bool) *RTResult {
 			spec.Timestamps = true
 		case "duplicate-synack":
 			spec.LateCopyMs = 15
+		case "isn-near-wrap":
+			// the connection's sequence space is such that the probe bytes (initial + ttl) wrap past 2^32 inside the TTL range
+			spec.AckNum = 0xfffffffe
 		case "slow-synack":
 			// the target's SYN-ACK for the traced connection takes a while: SYN-ACKs answering the request's own end-to-end
 			// SYN probes (other local ports, no SACK-permitted) are captured first
